@@ -51,6 +51,11 @@ CLAIMED = {
    note="Trusted: as C05/C17. Completeness of nonce sharing across overlapping statements is tied by the chained-equality scenarios of C03 (repaired finding F04).",
    technique="Lean 4 proof (equal responses ⇒ equal extracted values) + honest/deviating runs on the real verifier",
    design="§7 C09"),
+ "C10": dict(
+   text="Lean 4 theorems from the opening extracted by C05.elgamal_sound: group decryption is m•M; pseudonyms are a function of (signed scalar, generator) and collide across generators only for the zero scalar; the byte-sum check forces the bytes to represent the signed scalar modulo the group order unless generator and key are discrete-log related; reduction modulo r recovers it (incl. the representation m + r the pinned decoder rejected); a claim returned by decrypt_and_verify encodes to the signed scalar once the proof's generator is the statement's (repair), with the pinned generator-swap exhibited. Real runs on every claim type with honest holders, a steered holder omitting the requested part and a hand-written holder (own randomness, real knox API) decomposing into non-canonical / wrong bytes.",
+   note="Trusted: Lean kernel + standard axioms; bulletproofs (each byte ciphertext opens to a value < 256), AES-GCM, forking lemma. Known finding: decrypt_scalar only supports the G1 generator.",
+   technique="Lean 4 proof (decryption algebra from the extracted opening) + honest / steered / hand-written-holder runs",
+   design="§7 C10"),
  "C11": dict(
    text="Lean 4 theorems: a changed response moves the recomputed Schnorr commitment whenever its base point is not the identity, a changed statement point moves it when the challenge is non-zero (generic over the truncating msm), instantiated for the commitment and ElGamal verifiers and turned into a rejection theorem for the BBS t-check; removal / replacement of required proofs is decided by the dispatch theorems of C01. Every leaf of honest presentations (JSON form: random / zero / identity / negation / +1 / sibling; vectors resized; proofs removed / swapped) and sampled single-byte / single-bit changes of the BARE form are run against the real decoder + verifier.",
    note="Trusted: Lean kernel + standard axioms; a fresh transcript hitting the presented challenge is negligible (random oracle); canonical third-party decoders. Known finding: enumeration total_values above 16 bits is not covered by any hashed value.",
